@@ -10,7 +10,10 @@ from __future__ import print_function
 
 import collections
 import copy
+import inspect
+import io
 import json
+import operator
 import os
 import re
 import shutil
@@ -207,6 +210,43 @@ class Writable(object):
         return "Writable(%r)" % (self.text,)
 
 
+class OneShot(object):
+    """A one-shot iterable without length (an iterator written as a class); `pulled` counts the items handed out."""
+
+    def __init__(self, items):
+        self._items = list(items)
+        self.pulled = 0
+
+    def __iter__(self):
+        return self
+
+    def __next__(self):
+        if self.pulled >= len(self._items):
+            raise StopIteration
+        self.pulled += 1
+        return self._items[self.pulled - 1]
+    next = __next__
+
+    def __repr__(self):
+        return "OneShot(%r)" % (self._items,)
+
+
+def lazy_state(v):
+    """Position of a one-shot source, read WITHOUT advancing it (None: v is not such a source)."""
+    if isinstance(v, OneShot):
+        return v.pulled
+    if inspect.isgenerator(v):
+        return inspect.getgeneratorstate(v)
+    if isinstance(v, io.IOBase):
+        try:
+            return "closed" if v.closed else v.tell()
+        except (OSError, ValueError):
+            return "?"
+    if hasattr(v, "__next__") and not hasattr(v, "__len__"):
+        return operator.length_hint(v, -1)
+    return None
+
+
 def canon(v, root, depth=0):
     import lena.structures
     if depth > 12:
@@ -225,6 +265,9 @@ def canon(v, root, depth=0):
         return ["hist", canon(v.edges, root, depth + 1), canon(v.bins, root, depth + 1)]
     if isinstance(v, (Foreign, Writable)):
         return ["obj", type(v).__name__, canon(vars(v), root, depth + 1)]
+    st = lazy_state(v)
+    if st is not None:
+        return ["lazy", type(v).__name__, st]
     return ["repr", type(v).__name__, re.sub(r"0x[0-9a-fA-F]+", "0x?", repr(v)).replace(root, "<S>")]
 
 
@@ -762,6 +805,183 @@ def element_specs():
     return out
 
 
+# --------------------------------------------------------------------------- value anatomy (spec/SelectiveValue.tla)
+# The shapes of values are enumerated by TLC (data kind x context shape along the option path of the element);
+# here they are given flesh for each element: the key path of its option, what the leaf values are, and what
+# data of each kind looks like for this element.
+def _pc(name):
+    return {"variable": {"name": name}}
+
+
+def _HC1():
+    """1-d histogram whose bins are (int, context) pairs"""
+    import lena.structures
+    return lena.structures.histogram([0, 1, 2], [(3, _pc("mean")), (4, _pc("mean"))])
+
+
+def _HCL():
+    """... (list, context) pairs"""
+    import lena.structures
+    return lena.structures.histogram([0, 1, 2], [([1], _pc("lst")), ([2], _pc("lst"))])
+
+
+def _HCF():
+    """... (float, context) pairs"""
+    import lena.structures
+    return lena.structures.histogram([0, 1, 2], [(1.5, _pc("mean")), (3.5, _pc("mean"))])
+
+
+def _H3C():
+    """3-d histogram with a (number, context) bin"""
+    import lena.structures
+    return lena.structures.histogram([[0, 1], [0, 1], [0, 1]], [[[(5, _pc("mean"))]]])
+
+
+def _HHC():
+    """histogram whose bins are (histogram, context) pairs"""
+    import lena.structures
+    return lena.structures.histogram([0, 1, 2], [(lena.structures.histogram([0, 1], [1]), _pc("inner")),
+                                                 (lena.structures.histogram([0, 1], [2]), _pc("inner"))])
+
+
+def _gen3():
+    def events():
+        for i in range(3):
+            yield i
+    return events()
+
+
+_LAZY_NOSTREAM = [("iter", lambda d: iter([1, 2, 3])), ("gen", lambda d: _gen3()), ("oneshot", lambda d: OneShot([1, 2, 3]))]
+_LAZY = _LAZY_NOSTREAM + [("stream", lambda d: io.StringIO(u"line 1\nline 2\n"))]
+_CONT = [("pairs", lambda d: [(1, {"a": 1}), (2, {"a": 2, "output": {"filetype": "csv"}})])]
+_PLAIN = [("int", lambda d: 3), ("foreign", lambda d: Foreign("v"))]
+_NONDICT = {"str": lambda: "results_2024", "none": lambda: None, "tuple": lambda: ("write", True),
+            "int": lambda: 7, "list": lambda: [1, 2]}
+
+
+def _leaves(enable, other, disable=False):
+    return {"enable": lambda: copy.deepcopy(enable), "disable": lambda: disable, "other": lambda: other,
+            "zero": lambda: 0, "none": lambda: None, "dict": lambda: {}}
+
+
+class Anatomy(object):
+    """How the abstract shapes of SelectiveValue.tla look for one element configuration.
+    mode / path: the selection rule; leaves: concrete option values; kinds: data kind -> [(variant, maker(dir))]"""
+
+    def __init__(self, mode, path, leaves, kinds):
+        self.mode, self.path, self.leaves, self.kinds = mode, tuple(path), leaves, kinds
+        self.depth = len(self.path)
+
+    def context(self, ck, cl, cv):
+        def wrap(obj, keys):
+            for k in reversed(keys):
+                obj = {k: obj}
+            return obj
+        if ck == "bare":
+            return None
+        if ck == "absent":
+            return wrap({} if cv == "empty" else {"unrelated": {"x": 1}}, self.path[:cl - 1])
+        if ck == "cut":
+            return wrap(_NONDICT[cv](), self.path[:cl])
+        return wrap(self.leaves[cv](), self.path)
+
+
+def _anatomy_table():
+    hist = [("hist1d", lambda d: _H1())]
+    hist_cp = [("hist1d", lambda d: _HC1())]
+    veto = _leaves(True, "yes")
+    t = {}
+    t["ToCSV"] = Anatomy("veto", ("output", "to_csv"), veto, {
+        "plain": _PLAIN, "target": hist, "target_cp": hist_cp, "near_cp": [("hist3d", lambda d: _H3C())],
+        "lazy": _LAZY, "cont_cp": _CONT})
+    t["Write"] = Anatomy("veto", ("output", "write"), veto, {
+        "plain": _PLAIN, "target": [("str", lambda d: "text"), ("writable", lambda d: Writable("w"))],
+        "lazy": _LAZY_NOSTREAM, "cont_cp": _CONT})        # a text stream has write(): Write selects it
+    anydata = {"plain": _PLAIN, "target": [("name", lambda d: "f.csv")], "target_cp": hist_cp, "lazy": _LAZY,
+               "cont_cp": _CONT}
+    t["RenderLaTeX"] = Anatomy("require", ("output", "filetype"), _leaves("csv", "txt"), anydata)
+    t["RenderLaTeX_callables"] = Anatomy("require", ("render",), _leaves(True, "yes"), anydata)
+    t["LaTeXToPDF"] = Anatomy("require", ("output", "filetype"), _leaves("tex", "csv"), dict(
+        anydata, target=[("path", lambda d: os.path.join(d, "tex", "a1.tex"))]))
+    t["PDFToPNG"] = Anatomy("require", ("output", "filetype"), _leaves("pdf", "png"), dict(
+        anydata, target=[("path", lambda d: os.path.join(d, "pdf", "p1.pdf"))]))
+    t["HistToGraph"] = Anatomy("veto", ("histogram", "to_graph"), veto, {
+        "plain": _PLAIN, "target": hist, "target_cp": hist_cp, "lazy": _LAZY, "cont_cp": _CONT})
+    t["MapBins"] = Anatomy("data", ("value", "variable"), veto, {
+        "plain": _PLAIN, "target": hist, "target_cp": hist_cp, "near_cp": [("hist_lists", lambda d: _HCL())],
+        "lazy": _LAZY, "cont_cp": _CONT})
+    t["IterateBins"] = Anatomy("data", ("variable", "name"), _leaves("x", "y"), {
+        "plain": _PLAIN, "target": [("hist_hists", lambda d: _HH())], "target_cp": [("hist_hists", lambda d: _HHC())],
+        "near_cp": [("hist_ints", lambda d: _HC1()), ("hist_floats", lambda d: _HCF())], "lazy": _LAZY, "cont_cp": _CONT})
+    t["IterateBins_int_bins"] = Anatomy("data", ("variable", "name"), _leaves("x", "y"), {
+        "plain": _PLAIN, "target": hist, "target_cp": hist_cp,
+        "near_cp": [("hist_hists", lambda d: _HHC()), ("hist_floats", lambda d: _HCF())], "lazy": _LAZY, "cont_cp": _CONT})
+    t["RunIf"] = Anatomy("data", ("output", "filetype"), _leaves("csv", "txt"), {
+        "plain": [("float", lambda d: 2.5), ("foreign", lambda d: Foreign("v"))], "target": [("int", lambda d: 5)],
+        "lazy": _LAZY, "cont_cp": _CONT})
+    t["MapGroup"] = Anatomy("presence", ("group",), _leaves([{}, {}], "g"), {
+        "plain": [("int", lambda d: 5), ("foreign", lambda d: Foreign("v"))], "target": [("list", lambda d: [1, 2])],
+        "lazy": _LAZY, "cont_cp": _CONT})
+    return t
+
+
+def anatomy_of(name):
+    """the Anatomy of an element configuration: its own entry, or that of the longest prefix"""
+    t = _anatomy_table()
+    best = None
+    for k in t:
+        if (name == k or name.startswith(k + "_")) and (best is None or len(k) > len(best)):
+            best = k
+    return t[best] if best else None
+
+
+def anatomy_values(spec, verdicts):
+    """[(sample name, maker(dir), descriptor)] for every value shape TLC calls unselected under the rule of this
+    element configuration (verdicts: the records exported from SelectiveValue.tla), one per data variant"""
+    an = anatomy_of(spec.name)
+    out = []
+    if an is None:
+        return out
+    for rec in verdicts:
+        if rec["mode"] != an.mode or rec["depth"] != an.depth or rec["verdict"] != "unselected":
+            continue
+        for vname, mk in an.kinds.get(rec["d"], ()):
+            desc = dict((k, rec[k]) for k in ("mode", "depth", "d", "ck", "cl", "cv"))
+            name = "v:%s.%s:%s%d:%s" % (rec["d"], vname, rec["ck"], rec["cl"], rec["cv"])
+
+            def make(d, mk=mk, rec=rec):
+                data, ctx = mk(d), an.context(rec["ck"], rec["cl"], rec["cv"])
+                return data if ctx is None else (data, ctx)
+            out.append((name, make, desc))
+    out.sort(key=lambda x: x[0])
+    return out
+
+
+def _flat_parts(data):
+    import lena.structures
+    if isinstance(data, lena.structures.histogram):
+        todo, leaves = [data.bins], []
+        while todo:
+            x = todo.pop()
+            if isinstance(x, list):
+                todo.extend(reversed(x))
+            else:
+                leaves.append(x)
+        return leaves
+    if isinstance(data, list):
+        return list(data)
+    return []
+
+
+def value_cells(v, root):
+    """the cells of SelectiveValue.tla, read without disturbing the value"""
+    pair = isinstance(v, tuple) and len(v) == 2 and isinstance(v[1], dict)
+    data = v[0] if pair else v
+    return {"ctx": canon(v[1], root) if pair else None, "data": canon(data, root),
+            "parts": canon([p[1] for p in _flat_parts(data) if isinstance(p, tuple) and len(p) == 2], root),
+            "cursor": lazy_state(data)}
+
+
 # --------------------------------------------------------------------------- one scenario
 class Scenario(object):
     """Reference run on A alone, then the run on the interleaving; produces the tagged event log."""
@@ -785,6 +1005,9 @@ class Scenario(object):
     def run(self):
         spec, root = self.spec, self.root
         amap, bmap = dict(spec.A), dict(spec.B)
+        gdesc = dict((n, dsc) for n, _, dsc in getattr(spec, "G", ()))
+        bmap.update((n, mk) for n, mk, _ in getattr(spec, "G", ()))
+        self.vrecords = []
         # reference: the selected values alone
         self.fresh_dir()
         avals = [amap[n](root) for n in self.anames]
@@ -820,6 +1043,7 @@ class Scenario(object):
             if first != k + 1:
                 bvals[k] = bvals[first - 1]          # the very same object occurs twice in the flow
         before = [canon(b, root) for b in bvals]
+        cells_before = [value_cells(b, root) if n in gdesc else None for n, b in zip(self.bnames, bvals)]
         items, names = [], []
         ia = ib = 0
         for s in self.pattern:
@@ -832,6 +1056,18 @@ class Scenario(object):
         if err is not None:
             cur = [e["w"] for e in ev if e["ev"] == "in"]
             self.problems.append(("raised", cur[-1] if cur else "?", repr(err)))
+        # what happened to each generated value that the element pulled (judged by Trace_SelectiveValue.tla)
+        pulled = [e["w"] for e in ev if e["ev"] == "in"]
+        yielded = [e["obj"] for e in ev if e["ev"] == "out"]
+        for i, (n, b) in enumerate(zip(self.bnames, bvals)):
+            if cells_before[i] is None or n not in pulled:
+                continue
+            after = value_cells(b, root)
+            self.vrecords.append((n, dict(
+                gdesc[n], same=any(o is b for o in yielded),
+                touched=[c for c in ("ctx", "data", "parts") if after[c] != cells_before[i][c]],
+                cursor=0 if after["cursor"] == cells_before[i]["cursor"] else 1,
+                raised=bool(err is not None and pulled[-1] == n))))
         used = set()
         trace = [{"ev": "begin", "pat": [bool(x) for x in self.pattern], "fan": fan, "own": own,
                   "async": bool(spec.is_async), "bobj": list(self.bobj), "cut": self.cut, "kind": self.kind,
